@@ -534,7 +534,7 @@ func condAtomsOfExpr(a *Atoms) []string {
 		out = append(out, f)
 	}
 	for cl := range a.Calls {
-		cl = strings.TrimPrefix(cl, "inlined:")
+		cl = normCallName(strings.TrimPrefix(cl, "inlined:"))
 		if strings.HasPrefix(cl, "builtin.") || strings.HasPrefix(cl, "conv:") || isPlumbingCall(cl) {
 			continue
 		}
@@ -834,4 +834,13 @@ func (w *World) inspectRegion(fi *FuncInfo, visit func(ast.Node) bool) {
 	for _, f := range w.astRegion(fi) {
 		ast.Inspect(f.Decl, visit)
 	}
+}
+
+// normCallName: different spellings of one library operation.
+func normCallName(n string) string {
+	switch {
+	case strings.HasPrefix(n, "reflect.TypeFor"):
+		return "reflect.TypeOf"
+	}
+	return n
 }
